@@ -228,7 +228,8 @@ class Check:
         except ValueError:
             self.seed = 0
         self.t0 = time.time()
-        self.work = VERIF / "work" / ("%s-%s" % (pid, self.tier))
+        # VERIF_WORK_SUFFIX lets several runs of the same check (against different trees) coexist
+        self.work = VERIF / "work" / ("%s-%s%s" % (pid, self.tier, os.environ.get("VERIF_WORK_SUFFIX", "")))
         if self.work.exists():
             shutil.rmtree(self.work, ignore_errors=True)
         self.work.mkdir(parents=True)
@@ -332,8 +333,8 @@ class Check:
         return 1 if new else 0
 
     def write_evidence(self, n_new: int, n_known: int) -> None:
-        if os.environ.get("VERIF_REPLAY"):
-            return  # a replay of one case is not a coverage run
+        if os.environ.get("VERIF_REPLAY") or os.environ.get("VERIF_NO_EVIDENCE"):
+            return  # a replay of one case, or a run against a scratch tree, is not a coverage run of /repo
         cov = dict(self.cov)
         cov["samples"] = cov["samples"][:6]
         if not cov["samples"]:
